@@ -791,6 +791,10 @@ impl Line {
                         return Line::None;
                     }
                 }
+                /* The separator between "(filename)" and the value */
+                if field == 2 && s != b"=" {
+                    return Line::None;
+                }
                 /* Record size or hash */
                 if field == 3 {
                     value = match String::from_utf8(s.to_vec()) {
@@ -799,6 +803,10 @@ impl Line {
                     }
                 }
                 field += 1;
+            }
+            /* A truncated line records nothing. */
+            if field < 4 {
+                return Line::None;
             }
             /*
              * Valid actions are "Size", or a valid Digest type.  Anything
